@@ -78,6 +78,17 @@ CLAIMED["C11"] = (
     "trusts flatten (50 lines, written from the statement); while AutoHead is on, GET is declared through Get/Combo.Get/Any only",
     "DESIGN.md section 4 C11")
 
+CLAIMED["C04"] = (
+    "rapid-generated histories of Map/MapTo/Set/Invoke/Apply over 1..3 nested injectors and a 13-type universe (reflect.MakeFunc handlers, reflect.StructOf targets, six fast invokers with plain twins), oracle = own scope-chain resolver with set-valued implementor resolution; second check at framework level with live model (request > application > outer parent, remapped Context/ResponseWriter/*http.Request, built-in fast wrappers vs reflective handlers)",
+    "Interleaved registrations and invocations are replayed on real injectors; every argument must be a legal resolution by the own resolver (exact in scope, else any value registered in that scope under an implementing key, else parent), unresolvable parameters must give an error naming the type with the body not run, results must come back DeepEqual, and fast invokers must receive what their plain twins receive. At framework level a live model checks what func(Context), func(ResponseWriter,*Request), http.HandlerFunc, reflective and typed handlers receive across request / application / outer scopes, remaps of the built-in services, per-request isolation and the panic on an unresolvable parameter.",
+    "trusts the resolver (30 lines) and reflect; several implementors registered in one scope make a set of legal answers (map order is not part of the contract)",
+    "DESIGN.md section 4 C04")
+CLAIMED["C18"] = (
+    "rapid-generated requests (value-first query encoding by an own percent codec, raw hostile queries, bind parameter values, cookie values of arbitrary bytes, raw Cookie headers) x every accessor with and without default, oracle = own evaluation of the one rule (own integer recogniser + big.Int range check, 12-literal boolean table, exact float round trip) and SetCookie -> Cookie round trip",
+    "Every Query* accessor, Param/ParamInt/ParamInt64 and Cookie is called inside a handler for generated requests; results must equal an own evaluation of the rule 'present -> value converted by the standard rules, zero on malformed text; absent or empty -> default or zero', nothing may panic, and the name=value of the Set-Cookie header produced by SetCookie, sent back as Cookie header, must read back byte for byte for arbitrary byte strings.",
+    "trusts net/http's own query/cookie parsing for what a raw header contains (raw inputs are checked for totality and consistency only) and strconv.ParseFloat for which texts are float literals; out-of-range integers are unspecified",
+    "DESIGN.md section 4 C18")
+
 PENDING = {}
 
 def main():
